@@ -452,7 +452,9 @@ func (bg *Reader) Seek(off Offset) error {
 
 	if off.File != bg.current.Base() || !bg.current.hasData() {
 		ok := bg.cacheSwap(off.File)
-		if !ok {
+		if ok {
+			bg.redirect()
+		} else {
 			var dec *decompressor
 			if bg.dec != nil {
 				dec = bg.dec
@@ -506,6 +508,35 @@ func (bg *Reader) Seek(off Offset) error {
 	}
 
 	return bg.err
+}
+
+// redirect points the read-ahead worker at the block following the
+// current block after the current block has been replaced from the cache.
+// Without this the worker keeps reading ahead from its previous position,
+// or stays parked after an error or the end of the file, and a later read
+// past the end of the current block waits for a block that never arrives.
+func (bg *Reader) redirect() {
+	if bg.control == nil {
+		return
+	}
+	// Take a decompressor out of circulation while the worker is
+	// redirected, as the uncached path does, so that nextBlock never
+	// has to skip more than cap(bg.working)-1 stale blocks.
+	var dec *decompressor
+	select {
+	case dec = <-bg.waiting:
+	case dec = <-bg.working:
+		blk, err := dec.wait()
+		if err == nil {
+			bg.keep(blk)
+		}
+	}
+	select {
+	case <-bg.control:
+	default:
+	}
+	bg.control <- bg.current.NextBase()
+	bg.waiting <- dec
 }
 
 // LastChunk returns the region of the BGZF file read by the last
